@@ -332,6 +332,34 @@ def job_name(j):
     return n
 
 
+def assumption_scan(mod, pid):
+    """Mechanical list of every place where the contracts of this property assume something instead of proving it:
+    assume(...) in contract code, facts pushed on the path or the axiom set by hooks, callee contracts installed in place
+    of a function's body, errors a contract tolerates.  Produced from the contract sources on every run."""
+    import types
+    files = set()
+    cands = [v for v in vars(mod).values() if isinstance(v, types.ModuleType) and (v.__name__ or "").startswith("contracts")]
+    try:
+        cands.append(__import__(f"contracts.{pid.lower()}", fromlist=["x"]))
+    except Exception:   # noqa: BLE001
+        pass
+    seen = []
+    while cands:
+        m = cands.pop()
+        if m in seen:
+            continue
+        seen.append(m)
+        files.add(getattr(m, "__file__", None))
+        cands += [v for v in vars(m).values() if isinstance(v, types.ModuleType) and (v.__name__ or "").startswith("contracts")]
+    pat = re.compile(r"\bassume\(|ctx\.assume\(|I\.pcs\.append\(|I\.contracts\[id\(|allowed_exc\s*=|assume_path_bool\(|rec_contract\s*=")
+    out = []
+    for f in sorted(x for x in files if x):
+        for no, line in enumerate(open(f), 1):
+            if pat.search(line) and not line.lstrip().startswith("#"):
+                out.append(f"{os.path.relpath(f, ROOT)}:{no}: {line.strip()[:160]}")
+    return out
+
+
 def build_evidence(mod, pid, tier, seed, jobs, reports, obligations, discharged, refuted, undecided, demoted,
                    fns, bruns, known_lines, findings, violations, wall, t_proof):
     level_claimed = getattr(mod, "LEVEL", "proof")
@@ -378,6 +406,7 @@ def build_evidence(mod, pid, tier, seed, jobs, reports, obligations, discharged,
                         for fd in findings if fd.get("status") == "fixed"],
         undecided_obligations=[dict(name=o["name"], detail=o.get("detail", "")[:200]) for o in undecided][:50],
         proof_wall_s=round(t_proof, 2),
+        assumption_scan=assumption_scan(mod, pid),
         explanation=getattr(mod, "EXPLANATION", "") + (
             "" if all_proved else
             f" This run: {n_dis}/{n_ob} obligations discharged, {len(undecided)} undecided, {len(demoted)} functions "
